@@ -3,6 +3,8 @@ package main
 // Translation of contract expressions (cexpr.go) into SMT terms in a given state.
 
 import (
+	"sort"
+	"hash/fnv"
 	"fmt"
 	"go/constant"
 	"go/token"
@@ -401,9 +403,27 @@ func (c *cenv) term(ex CExpr) (cval, error) {
 			ch.vars[v[0]] = cval{n, s, t}
 			binds = append(binds, fmt.Sprintf("(%s %s)", n, e.smtSort(s)))
 		}
+		nBefore := len(e.asserts)
 		body, err := ch.boolTerm(x.Body)
 		if err != nil {
 			return cval{}, err
+		}
+		// side facts produced while translating the body (allocation facts of loaded values ...) which
+		// mention a bound variable cannot stand as assertions of their own: drop them
+		if len(e.asserts) > nBefore {
+			kept := e.asserts[:nBefore:nBefore]
+			for _, a := range e.asserts[nBefore:] {
+				bad := false
+				for _, v := range x.Vars {
+					if containsToken(a, "q_"+v[0]) {
+						bad = true
+					}
+				}
+				if !bad {
+					kept = append(kept, a)
+				}
+			}
+			e.asserts = kept
 		}
 		q := "exists"
 		if x.Forall {
@@ -722,6 +742,14 @@ func (c *cenv) call(x *CCall) (cval, error) {
 		a, err := c.args(x, 1)
 		if err != nil {
 			return cval{}, err
+		}
+		if a[0].sort == "FP" {
+			// a float64 value given as a floating-point term: the interface value holding that number
+			// (integers and finite values have one bit pattern)
+			n := e.newName("boxnum")
+			e.decl(n, "F64")
+			e.assume(fmt.Sprintf("(= (toFP %s) %s)", n, a[0].s))
+			return cval{"(IF64 " + n + ")", "Iface", types.NewInterfaceType(nil, nil)}, nil
 		}
 		if a[0].t == nil {
 			return cval{}, fmt.Errorf("box of untyped value")
@@ -1097,12 +1125,57 @@ func (c *cenv) specCall(sf *SpecFunc, x *CCall) (cval, error) {
 			sig = append(sig, e.smtSort(s))
 			as = append(as, a.s)
 		}
-		e.declFun(sf.Name, fmt.Sprintf("(%s) %s", strings.Join(sig, " "), e.smtSort(rs)))
+		fname := sf.Name
+		if len(sf.Reads) > 0 {
+			// a function of the heap: one symbol per state of the arrays it reads
+			var vs []string
+			var arrs []string
+			for a := range e.heapSort {
+				arrs = append(arrs, a)
+			}
+			sort.Strings(arrs)
+			for _, a := range arrs {
+				for _, p := range sf.Reads {
+					if matchArr(p, a) {
+						v := 0
+						if c.st != nil {
+							v = c.st[a]
+						}
+						if v != 0 {
+							vs = append(vs, fmt.Sprintf("%s@%d", a, v))
+						}
+						break
+					}
+				}
+			}
+			suffix := "s0"
+			if len(vs) > 0 {
+				h := fnv.New32a()
+				h.Write([]byte(strings.Join(vs, ";")))
+				suffix = fmt.Sprintf("s%08x", h.Sum32())
+			}
+			fname = sf.Name + "!" + suffix
+			if e.specStates == nil {
+				e.specStates = map[string]map[string]hstate{}
+			}
+			if e.specStates[sf.Name] == nil {
+				e.specStates[sf.Name] = map[string]hstate{}
+			}
+			if _, ok := e.specStates[sf.Name][suffix]; !ok {
+				st := hstate{}
+				if c.st != nil {
+					st = c.st.clone()
+				}
+				e.specStates[sf.Name][suffix] = st
+			}
+			fname = "|" + fname + "|"
+		}
+		e.declFun(fname, fmt.Sprintf("(%s) %s", strings.Join(sig, " "), e.smtSort(rs)))
 		e.usedSpecs[sf.Name] = true
 		if len(as) == 0 {
-			return cval{"(" + sf.Name + ")", rs, rt}, nil
+			return cval{"(" + fname + ")", rs, rt}, nil
 		}
-		return cval{fmt.Sprintf("(%s %s)", sf.Name, strings.Join(as, " ")), rs, rt}, nil
+		return cval{fmt.Sprintf("(%s %s)", fname, strings.Join(as, " ")), rs, rt}, nil
 	}
 	ch := &cenv{e: e, vars: map[string]cval{}, st: c.st, old: c.old, pkg: sf.Pkg, depth: c.depth + 1}
 	for i, p := range sf.Params {
@@ -1113,4 +1186,21 @@ func (c *cenv) specCall(sf *SpecFunc, x *CCall) (cval, error) {
 		return cval{}, fmt.Errorf("in spec %s: %v", sf.Name, err)
 	}
 	return r, nil
+}
+
+// containsToken: name occurs in the SMT text as a whole symbol.
+func containsToken(text, name string) bool {
+	for i := 0; ; {
+		j := strings.Index(text[i:], name)
+		if j < 0 {
+			return false
+		}
+		k := i + j + len(name)
+		if k >= len(text) || text[k] == ' ' || text[k] == ')' {
+			if i+j == 0 || text[i+j-1] == ' ' || text[i+j-1] == '(' {
+				return true
+			}
+		}
+		i = k
+	}
 }
